@@ -72,9 +72,9 @@ type Node struct {
 
 // Doc is a whole document: prolog, document element, epilog.
 type Doc struct {
-	Decl       bool   // <?xml version="1.0" ...?> present
-	Encoding   string // encoding pseudo-attribute ("" = absent); always a spelling of UTF-8
-	Standalone string // "", "yes" or "no"
+	Decl       bool    // <?xml version="1.0" ...?> present
+	Encoding   string  // encoding pseudo-attribute ("" = absent); always a spelling of UTF-8
+	Standalone string  // "", "yes" or "no"
 	Prolog     []*Node // comments and PIs before the document element
 	Root       *Node
 	Epilog     []*Node // comments and PIs after the document element
